@@ -27,7 +27,7 @@ def _tools(workdir):
     return d
 
 
-def generate(workdir, name, protos, options=(), timeout=300, rerun=None):
+def generate(workdir, name, protos, options=(), timeout=900, rerun=None):
     """protos: {relative path: text}.  Output goes to <workdir>/<name>/gen (gen is a package below a path root).
     Returns dict(rc, err, root, descriptor_set path)."""
     tools = _tools(workdir)
@@ -159,7 +159,7 @@ json.dump(out, sys.stdout)
 '''
 
 
-def introspect(root, timeout=120):
+def introspect(root, timeout=900):
     """import the generated package `gen` under root in a fresh interpreter and describe it"""
     try:
         p = subprocess.run([common.PY, "-c", INTROSPECT, root, common.REPO + "/src"], stdout=subprocess.PIPE, stderr=subprocess.PIPE,
